@@ -27,6 +27,8 @@ def rand_anchor(rng, md, month_end=False):
         d = min(d, month_len(md, y, m))
         z = rand_zone(rng)
         return "C %d %d %d S %d %d 0 %d %d" % (y, m, d, rng.choice([0, 0, 12, 23]), rng.choice([0, 59]), z[0], z[1])
+    if rng.random() < 0.08:
+        return rand_tp(rng, md, tod="S 24 0 0")      # the end-of-day spelling of the next day's 00:00:00
     return rand_tp(rng, md, form="S", allow24=False, decimals=False)
 
 
